@@ -192,6 +192,19 @@ func judgeRule(c *ev.Ctx, prop string, sc Scn, r *Res) (decided bool) {
 		c.Violation(key+":registry", "the registry was modified by the workflow", "wf", sc)
 	}
 	if sc.Stub && r.RunCalls == 0 {
+		if sc.Fault == nil && !r.Verdict {
+			named := false
+			for _, n := range itemNames() {
+				if errItem(r.Err) == n {
+					named = true
+				}
+			}
+			if !named {
+				// a healthy source, no sample judged, and an error that names no test item
+				c.Violation(key+":no-sample-judged", fmt.Sprintf("returned (false, %q) on a healthy source without judging a single sample; the error names no test item", r.Err), "wf", sc)
+				return true
+			}
+		}
 		c.Inconclusive(key + ": stub runners never invoked (registry bypassed?)")
 		return false
 	}
@@ -411,6 +424,23 @@ func runC07(c *ev.Ctx) {
 			}
 		}
 		c.Count("history_chains", int64(nChain))
+	}
+	// sources that are *os.File but not regular files: character devices (endless, size 0) and pipes
+	{
+		r := gen.NewRng(gen.Mix(seed, 7778))
+		for _, name := range seqWFs {
+			w := workflows[name]
+			for _, srcT := range []string{"devzero", "devurandom", "pipe"} {
+				m := baseMatrix(r, w.S, w.Items)
+				if srcT == "pipe" {
+					for i := 0; i < w.Items; i++ {
+						setPassCount(r, m, i, oracle.Threshold(w.S))
+					}
+				}
+				id++
+				scns = append(scns, Scn{ID: id, WF: name, Stream: Stream{Kind: "matrix", Seed: r.U64(), Matrix: m}, Stub: true, Chunk: mon.ChunkPlan{Kind: "whole"}, Source: srcT, Note: "uniformity-or-count decided on bytes from source=" + srcT})
+			}
+		}
 	}
 	// heavy real runs first so they overlap with the stub sweep
 	sort.SliceStable(scns, func(a, b int) bool { return !scns[a].Stub && scns[b].Stub })
@@ -654,6 +684,28 @@ func runC08(c *ev.Ctx) {
 			}
 			groups = append(groups, g)
 		}
+	}
+	// a polled device whose buffer stays empty for about 10 s in the middle of a sample: 1300 immediate
+	// (0,nil) answers 8 ms apart, once
+	{
+		w := workflows["PeriodFast"]
+		r := gen.NewRng(gen.Mix(seed, 8122))
+		m := baseMatrix(r, w.S, w.Items)
+		for i := 0; i < w.Items; i++ {
+			setPassCount(r, m, i, oracle.Threshold(w.S))
+		}
+		st := Stream{Kind: "matrix", Seed: r.U64(), Matrix: m, Tail: "fail"}
+		plan := mon.ChunkPlan{Kind: "stall", Size: 1300, Block: 8, StallSleepMs: 8, StallOnce: true}
+		g := &c08Group{wf: "PeriodFast", stream: st}
+		id++
+		g.seqID = id
+		scns = append(scns, Scn{ID: id, WF: "Period", Stream: st, Stub: true, Chunk: plan, Note: "sequential reference: source empty for 10 s (1300 empty reads)"})
+		for k := 0; k < 2; k++ {
+			id++
+			scns = append(scns, Scn{ID: id, WF: "PeriodFast", Stream: st, Stub: true, Chunk: plan, Procs: procs[k+1], Note: fmt.Sprintf("source empty for 10 s (1300 empty reads) rep%d", k)})
+			g.fast = append(g.fast, id)
+		}
+		groups = append(groups, g)
 	}
 	// a slow device: 60-120 ms per Read, a run lasts seconds; verdicts must not depend on elapsed time
 	for _, fname := range []string{"PeriodFast", "PowerOnFast"} {
